@@ -55,7 +55,7 @@ class ART1(BaseART):
         assert "rho" in params
         assert "L" in params
         assert 1.0 >= params["rho"] >= 0.0
-        assert params["L"] >= 1.0
+        assert np.inf > params["L"] >= 1.0
         assert isinstance(params["rho"], float)
         assert isinstance(params["L"], float)
 
